@@ -15,6 +15,7 @@ from testtools.twistedsupport import (
 from testtools.twistedsupport._runtest import _get_global_publisher_and_observers
 
 from vt import recorders as rec
+from vt.proggen import EqualsAnything
 from vt.explore import vreactor
 from vt.explore.chooser import Chooser, explore, obs_hash
 from vt.runner import ShardResult
@@ -113,7 +114,8 @@ def behave(case, ctx, stage):
         r.callLater(1.0, d.errback, EmptyBatchError())
         return d
     if k == "fired":
-        return defer.succeed(stage)
+        # (fired with a value that compares equal to anything - mock.ANY is one)
+        return defer.succeed(EqualsAnything(stage))
     if k in ("fire1", "fire2"):
         d = defer.Deferred()
         r.callLater(DELAY[k], d.callback, stage)
